@@ -49,6 +49,8 @@ def run(ctx):
     sysm = systematic()
     if ctx.tier == "quick":
         sysm = sysm[::2] + sysm[-8:]
+    from vlib.pairwise import pairwise
+    sysm = sysm + [r for _, r in pairwise(types=["array"])]
     n = 20 if ctx.tier == "quick" else 300
     cases = build_cases(ctx, len(sysm) + n, ["array"], CLASSES | {"type"}, "c07x", extra_schemas=sysm, docs_per=2 if ctx.tier == "quick" else 4)
     run_cases(ctx, cases, "c07")
